@@ -19,7 +19,7 @@ def program(pid, nodes, start=1, end=8):
 
 
 SOURCE_KINDS = ("src", "timer", "fb")
-UNARY = ("pass", "add", "acc", "count", "delay")
+UNARY = ("pass", "add", "acc", "count", "delay", "echo")
 BINARY = ("sum2", "sumu", "sample")
 
 
@@ -33,7 +33,7 @@ def _stmt(i, n, ref):
             kv.append("mode=" + n["mode"])
     elif n["kind"] == "add":
         kv.append("k=%d" % n["k"])
-    elif n["kind"] == "delay":
+    elif n["kind"] in ("delay", "echo"):
         kv.append("d=%d" % n["k"])
     elif n["kind"] == "timer":
         kv.append("p=%d cnt=%d" % (n["k"], n["cnt"]))
